@@ -214,6 +214,7 @@ def run_impl(binpath, ops, extra_env=None):
     located by a watchdog and reported as `hang`; the run resumes after the offending op"""
     results = []
     i = 0
+    incidents = 0
     env = dict(ENV)
     if extra_env:
         env.update(extra_env)
@@ -239,6 +240,11 @@ def run_impl(binpath, ops, extra_env=None):
         results.extend(lines)
         results.append("hang" if status == "hang" else "fault rc=%s" % status)
         i += len(lines) + 1
+        incidents += 1
+        if incidents >= 6:
+            # enough evidence; do not spend the time budget on locating further hangs/crashes of the same stream
+            results.extend(["skipped"] * (len(ops) - len(results)))
+            break
     return results
 
 
